@@ -68,6 +68,8 @@ import XotModel.Lemmas.ValidDoc
 import XotModel.Lemmas.ColonWitness
 import XotModel.Lemmas.ParseErase
 import XotModel.Lemmas.ParseNsCompleteLex
+import XotModel.Lemmas.PiColonC01
+import XotModel.Lemmas.PiColonWitness
 
 namespace XotModel.Props
 open XotModel XotModel.Witness
@@ -797,6 +799,86 @@ example : ∃ p, parseString .document Env.fresh goodText = .ok p ∧ ∃ s', to
   obtain ⟨p, h, hg, hpi⟩ := good_spec
   obtain ⟨s', h1, p', h2, h3, _, h5⟩ := C03_accepted_roundtrip good_accepted.2.2.1 h hg hpi
   exact ⟨p, h, s', h1, p', h2, h3, h5⟩
+
+/-! ### PI targets with a colon: the round trip without the guard `PlainPiTargets`
+
+`RepresentablePi env t` (= `PiColon.Representable`, Lemmas/PiColonDefs.lean) is `Representable env t` with ONE clause
+widened: a PI target must be what the tokenizer's `consume_name` accepts (`nameOK`: a name-start character,
+then name characters, colons allowed) instead of an NCName; `Representable` / `valueOK` themselves are unchanged.
+The crate does not refuse such targets (`/repo/src/parse.rs`, `ProcessingInstruction` arm: only `xml` in any
+letter case is refused; the target is interned as a name in no namespace and written back as it is).  The C01
+round trip and "accepted ⇒ representable" are re-proved for the widened domain by re-running the SAME proof
+texts in the namespace `XotModel.PiColon`, where `valueOK` / `nodeOK` / `Representable` name the widened
+definitions (Lemmas/PiColon*.lean, generated copies of the 105 declarations that depend on `valueOK`).  The
+NCName clause turned out to be used in exactly two places: `serNode_lexOK` (the written target must be read
+back whole by `consume_name`: `ncNameNE_nameOK`, i.e. `nameOK` is what is needed) and `valueOK_pi_facts`
+(the target is not empty, so its id is in range: `nameOK` gives that too); and `valueOK_of_acc` takes `nameOK`
+from the tokenizer (`ValAcc`) where it took the NCName from the guard. -/
+
+/-- The widened domain contains the original one. -/
+theorem C03_representable_pi_of_representable (env : Env) (t : Tree) (h : Representable env t = true) :
+    RepresentablePi env t = true := by
+  simp only [Representable, RepresentablePi, PiColon.Representable, RepresentableFragment,
+    PiColon.RepresentableFragment, Bool.and_eq_true] at h ⊢
+  exact ⟨⟨⟨h.1.1.1, PiColon.allNodes_of_allNodes env t h.1.1.2⟩, h.1.2⟩, h.2⟩
+
+/-- … and differs from it in the PI-target clause only: with `PlainPiTargets` the two coincide on accepted
+    trees (`C03_accepted_representable`). -/
+theorem C03_accepted_representable_pi {env : Env} {s : Str} {p : Parsed} (henv : envOK env = true)
+    (h : parseString .document env s = .ok p) (hg : NoReservedDecls p.env p.tree = true) :
+    RepresentablePi p.env p.tree = true :=
+  PiColon.Accepted.accepted_representable henv h hg
+
+theorem C03_accepted_representable_pi_fragment {m : Mode} {env : Env} {s : Str} {p : Parsed}
+    (henv : envOK env = true) (h : parseString m env s = .ok p) (hg : NoReservedDecls p.env p.tree = true) :
+    RepresentableFragmentPi p.env p.tree = true :=
+  PiColon.Accepted.accepted_representable_fragment henv h hg
+
+/-- Every name the parser resolved can be written; no guard on PI targets. -/
+theorem C03_accepted_serialises_pi {m : Mode} {env : Env} {s : Str} {p : Parsed} (henv : envOK env = true)
+    (h : parseString m env s = .ok p) (hg : NoReservedDecls p.env p.tree = true) :
+    namesWritable p.env p.tree [] = some true :=
+  PiColon.Accepted.accepted_writable henv h hg
+
+/-- The C01 round trip on the widened domain. -/
+theorem C03_roundtrip_pi (env : Env) (t : Tree) (hr : RepresentablePi env t = true)
+    (hw : namesWritable env t [] = some true) :
+    ∃ s p, toXmlString env t [] = .ok s ∧ parseString .document env s = .ok p ∧ p.tree = t ∧ p.env = env ∧
+      deepEqual p.tree t = true :=
+  PiColon.C01_roundtrip_writable env t hr hw
+
+/-- **C03_accepted_roundtrip_pi_colon** (`parse`): whatever is accepted — PI targets with a colon included;
+    the only guard left is `NoReservedDecls` (the known finding) — serialises, and the text is accepted again
+    and gives the SAME tree, tables unchanged; `deep_equal`. -/
+theorem C03_accepted_roundtrip_pi_colon {env : Env} {s : Str} {p : Parsed} (henv : envOK env = true)
+    (h : parseString .document env s = .ok p) (hg : NoReservedDecls p.env p.tree = true) :
+    ∃ s', toXmlString p.env p.tree [] = .ok s' ∧ ∃ p', parseString .document p.env s' = .ok p' ∧
+      p'.tree = p.tree ∧ p'.env = p.env ∧ deepEqual p'.tree p.tree = true := by
+  obtain ⟨s', p', h1, h2, h3, h4, h5⟩ := C03_roundtrip_pi p.env p.tree
+    (C03_accepted_representable_pi henv h hg) (C03_accepted_serialises_pi henv h hg)
+  exact ⟨s', h1, p', h2, h3, h4, h5⟩
+
+/-- `parse_fragment`. -/
+theorem C03_accepted_roundtrip_pi_colon_fragment {env : Env} {s : Str} {p : Parsed} (henv : envOK env = true)
+    (h : parseString .fragment env s = .ok p) (hg : NoReservedDecls p.env p.tree = true) :
+    ∃ s', toXmlString p.env p.tree [] = .ok s' ∧ ∃ p', parseString .fragment p.env s' = .ok p' ∧
+      p'.tree = p.tree ∧ p'.env = p.env ∧ deepEqual p'.tree p.tree = true := by
+  have hr := C03_accepted_representable_pi_fragment henv h hg
+  obtain ⟨s', hs⟩ := (PiColon.C01_serialises p.env p.tree hr).mpr (C03_accepted_serialises_pi henv h hg)
+  exact ⟨s', hs, PiColon.C01_roundtrip_fragment_identical p.env p.tree hr s' hs⟩
+
+/-- Non-vacuity OUTSIDE `PlainPiTargets` / `Representable`, closed: `<?a:b x?><r><?c:d?></r>` is accepted from
+    `Xot::new()`'s tables, its tree is not `Representable` (the targets `a:b`, `c:d` are no NCNames) but
+    `RepresentablePi`, it serialises to the SAME text, which is accepted again and gives the same tree. -/
+example : ∃ p, parseString .document Env.fresh piColonText = .ok p ∧ PlainPiTargets p.env p.tree = false ∧
+    Representable p.env p.tree = false ∧ RepresentablePi p.env p.tree = true ∧
+    toXmlString p.env p.tree [] = .ok piColonText ∧
+    ∃ p', parseString .document p.env piColonText = .ok p' ∧ p'.tree = p.tree ∧ deepEqual p'.tree p.tree = true := by
+  obtain ⟨p, h, hg, hpi, hnr, hr, hs⟩ := piColon_spec
+  obtain ⟨s', h1, p', h2, h3, _, h5⟩ := C03_accepted_roundtrip_pi_colon good_accepted.2.2.1 h hg
+  rw [hs] at h1
+  cases h1
+  exact ⟨p, h, hpi, hnr, hr, hs, p', h2, h3, h5⟩
 
 /-- The clause at full strength: no guard. -/
 def C03_accepted_roundtrip_Statement : Prop :=
